@@ -21,6 +21,31 @@ CLAIMED = {
         text="Specifier half decided completely within bounds: pair laws on all ordered pairs over K tokens (quick 3 / thorough 4), associativity and distributivity on all triples over K-1 tokens. Marker half ('up to equivalence') is a corollary of C02's soundness clauses and is not separately decided.",
         note="trusts: as C01/C05; marker laws not decided here",
         ref="DESIGN.md §4 C14", thorough=True),
+    "C19": dict(
+        technique="static analysis: abstract interpretation of the GenericSpecifier case table over relation-class representative strings (saturated quotient), result denotation vs PEP 508 string-operator semantics",
+        text="Complete over the relation quotient: every ordered pair of (operator, literal) atoms with literals from a pool saturating the ==/substring relation signatures x {&,|} and every ~a is interpreted from source; outcome must be NotImplementedError or a specifier denoting exactly and/or/complement on every candidate; the code's own __contains__ on each result kind must agree with the denotation.",
+        note="trusts: PEP 508 string operator semantics; relation-only lemma (literals touched only through ==, in, <)",
+        ref="DESIGN.md §4 C19", thorough=True),
+    "C02": dict(
+        technique="static analysis: bounded abstract interpretation of the marker operators from source (packaging replaced by a PEP 440/508 model), denotations as bitmasks over an environment grid; plus syntax-directed polarity and discarded-result rules",
+        text="Necessary conditions, bounded: all ordered pairs of a level-0 atom vocabulary (exhaustive), all atom-group pairs, a structured shared-child family and a seeded sample of compound pairs must evaluate as the conjunction/disjunction of the operands on every environment of the grid; Any/Empty identities; evaluate() of atoms and groups equals the PEP 508 meaning; polarity facts of both `of` fix-points hold on all paths; no computed result is dropped. Arbitrary-depth trees, termination and the caches are NOT decided here.",
+        note="trusts: vsa/pkgmodel.py (PEP 440 ordering / operator table) standing in for packaging; vocabulary of vsa/markexplore.py",
+        ref="DESIGN.md §4 C02", thorough=True),
+    "C07": dict(
+        technique="static analysis: bounded abstract interpretation of __str__ from source; rendered text given meaning by an independent PEP 508 grammar and compared with the structural denotation; table rules on reflect map and special tokens",
+        text="Necessary conditions, bounded: for every distinct marker of the explored universe (level 0-2 results) the interpreted str(m) is valid PEP 508, denotes exactly m under and/or precedence, never contains '<empty>', and the interpreted parse_marker(str(m)) is equivalent; '' and '<empty>' renderings and parse_marker's special cases agree; _op_reflect_map is an involution. Acceptance by packaging's real parser and exotic quoting are not decided.",
+        note="trusts: own PEP 508 grammar and PEP 440 model in place of packaging",
+        ref="DESIGN.md §4 C07", thorough=True),
+    "C12": dict(
+        technique="static analysis: bounded abstract interpretation of only()/exclude()/without_extras() from source on the explored marker universe (mentioned variables + denotation bitmasks); class-table exhaustiveness and monotone-language facts",
+        text="Bounded: for every marker of the universe and subsets of its variables, only() mentions no foreign variable, is implied by m, and equals m when m mentions only those names; exclude()/without_extras() drop the variable and keep the meaning when it is not mentioned. Class table: every marker class resolves the three methods; without_extras == exclude('extra'); no negation operator exists (monotone language).",
+        note="trusts: PEP 440/508 model; vocabulary bound",
+        ref="DESIGN.md §4 C12", thorough=True),
+    "C15": dict(
+        technique="static analysis: bounded abstract interpretation judging the shape of every returned marker against the normal form; syntax-directed rules on `of` exits and constructor flattening",
+        text="Bounded: every result of &, |, only, exclude, without_extras and parse_marker(str(m)) over the explored operand pairs is empty, universal, an atom/atom group, or a compound with >= 2 distinct children none empty/universal/same-kind; plus all-path rules: `of` exits and polarity, each compound constructor flattens its own class. Arbitrary trees are not decided.",
+        note="trusts: PEP 440/508 model; vocabulary bound",
+        ref="DESIGN.md §4 C15", thorough=True),
 }
 
 NOT_APPLICABLE = {
